@@ -1,27 +1,97 @@
 # C05 — termination is hierarchical and complete; shutdown waits for everyone
+# Two sub-checks: the kernel model (klock, shared with C03/C04/C06: actors) and the temporary reply addresses (c05addr).
 import kernel_common as K
+import vlib
+
+FINDING_PENDING = "C05-pending-ask-outlives-shutdown"
+
+TRUSTED_ADDR = [
+    "hand-written model coq/C05/AddrModel.v of the life of the temporary addresses (engine/future/future.go New / Initialize / Close / "
+    "DeliveryUserMessage / AwaitForward, engine/vivid/actor_context.go FutureAsk / AwaitForward and the termination / restart paths that do "
+    "NOT touch futures, engine/vivid/future.go typed ask, engine/vivid/actor_system.go FutureAsk / AwaitForward / Shutdown), a future "
+    "abstracted to 'registered from creation to its one completion' (the inside of one future is C07's machine), tied on every run by "
+    "differential execution (harness/cmd/c05addr): scripts run on the REAL vivid.ActorSystem inside a testing/synctest bubble (go1.26.8, "
+    "virtual time; default dispatcher replaced through the verif hook), the ResourceController is enumerated after EVERY operation (hook "
+    "VerifResourceController + reflection over the unexported process table, probing of the predictable addresses as a fall-back) and "
+    "the clock, the registered set and every completion (how, when) are compared inside Coq",
+    "scripted behaviour of the harness actors (targets answering at once / after a delay by sleeping in the handler or from a goroutine / "
+    "never / when told to; asker actors under a supervisor that restarts at once); answer and timeout are never generated for the same "
+    "instant (either may win there); the API is not used after Shutdown",
+    "synctest's virtual clock and quiescence detection (synctest.Wait after every operation)",
+]
 
 MANIFEST = {
-    "text": "Kernel model (children bookkeeping incl. stale-notice handling, graceful flag, tryTerminated, parent/watchers notification, "
-            "registry, closed flag) replayed in lockstep against the real actor system over random trees with terminations, restarts, "
-            "re-spawns, watch-before-spawn, spawns from termination handlers and sends in flight, ending with Shutdown. Proved for every "
-            "role table that never spawns from an actor's own OnTerminated handler nor under a system address, and every label sequence "
+    "text": "Two tied models. (1) Kernel model (children bookkeeping incl. stale-notice handling, graceful flag, tryTerminated, parent/watchers "
+            "notification, registry, closed flag) replayed in lockstep against the real actor system over random trees with terminations, "
+            "restarts, re-spawns, watch-before-spawn, spawns from termination handlers and sends in flight, ending with Shutdown. Proved for "
+            "every role table that never spawns from an actor's own OnTerminated handler nor under a system address, and every label sequence "
             "(Kernel/Hierarchy.v, invariant RI/H2..H5 over registry, parent and children tables): C05_hierarchical_partial — in every "
             "reachable state a still-registered actor has a still-registered parent that lists it, so no actor finishes terminating before "
             "any descendant; C05_no_registered_child_of_unregistered_parent_partial. The excluded script behaviour is a real defect, proved "
-            "as C05_registry_empty_after_shutdown_refuted (spawn inside the final OnTerminated leaks the child: open finding); "
-            "C05_shutdown_completes_refuted (lifecycle-handler panic: open finding). Graceful drain, closed flag and empty registry are "
-            "checked per run by step-by-step equality with the model and the C05 monitors.",
+            "as C05_registry_empty_after_shutdown_refuted (spawn inside the final OnTerminated creates an orphan nobody waits for: open "
+            "finding). C05_graceful_request_queued_behind_partial (Kernel/Queue.v: a graceful request is appended behind every user "
+            "message already queued and the mailbox is consumed in order). The former witness of a lifecycle-handler panic blocking "
+            "Shutdown is repaired in /repo (example C05_panic_in_onterminate_no_longer_blocks_shutdown). Graceful drain, closed flag and "
+            "empty registry are checked per run by step-by-step equality with the model and the C05 monitors. "
+            "(2) Temporary reply addresses (the futures FutureAsk / the typed ask / AwaitForward register under <actor>/<n>): executable "
+            "model of the SET of registered temporary addresses of a whole system in virtual time. Proved for every sequence of asks (target "
+            "answers after a delay / never / when told to; timeout or none), AwaitForwards, passages of time, terminations and restarts of "
+            "askers with asks pending, and Shutdown anywhere: an address is registered exactly from its creation to its one completion "
+            "(C05_addr_registered_iff_not_completed, _registered_is_pending: released in the very instant of the first of answer and "
+            "timeout, _completion_is_first_of_answer_and_timeout, _never_registered_again, _ask_registered_from_creation, _ids_identify); an "
+            "address with a timer is gone once the clock reaches it, asker dead or alive, system shut down or not (_gone_at_timeout, "
+            "_asks_released_by_time); once every ask is answered or past its timeout no ask address is registered, only AwaitForwards can be "
+            "(_no_ask_once_settled), with their functions returned nothing at all, in particular when Shutdown returns after that point and "
+            "for ever after (_empty_once_settled, _empty_after_settled_shutdown); terminating or restarting the asker and Shutdown close no "
+            "future (_stop_and_restart_touch_nothing, _shutdown_is_only_time). Refuted: with the model's flag rel=false (the code as it was "
+            "shipped) an AwaitForward address is NEVER released (_awaitforward_released_as_shipped_refuted, "
+            "_awaitforward_as_shipped_refuted_for_ever; genuine defect, repaired in /repo by a4a4636, the correspondence runs the model "
+            "with rel=true); the literal clause 'after Shutdown no temporary address remains' is false also of the repaired code for asks "
+            "still pending when Shutdown is called — they stay until their timeout, for ever without one "
+            "(_no_address_after_shutdown_refuted, _stop_releases_pending_asks_refuted, _untimed_ask_refuted_for_ever; open finding "
+            "C05-pending-ask-outlives-shutdown). Each run drives ~2 000 scripts (40 000 thorough) on a real ActorSystem on "
+            "virtual time and compares clock, registered set after every operation and every completion with the model inside Coq; Go-side "
+            "monitors C05:addr:{ask-registered-after-completion, ask-unregistered-while-pending, registered-after-shutdown} restate the "
+            "clause from the harness's own facts.",
     "note": "Partial: the hierarchy theorem carries two hypotheses on the scripts; 'Shutdown returns only after everyone terminated' and the "
-            "graceful-drain clause are decided per run (correspondence + monitors), not by theorem. Two open findings. Same trusted base as C03.",
+            "graceful-drain clause are decided per run (correspondence + monitors; the queue-order half of the drain clause is a theorem), "
+            "not by theorem. Three open findings (two orphan, one pending ask). Same trusted base as C03. "
+            "Temporary addresses: 'no temporary address after Shutdown' is proved only for a "
+            "Shutdown that happens after every ask has been answered or has timed out; for asks pending at Shutdown it is refuted and the "
+            "monitor reports it (state=pending) as the known finding C05-pending-ask-outlives-shutdown; a registered address in any other "
+            "state after Shutdown (completed ask, returned AwaitForward) is a VIOLATION. The two models are tied to the code separately, not to each other (the address model knows actors only as 'can still "
+            "act'); re-creation of an asker under the same name (address reuse, C07 finding 5), remote asks and the inside of one future "
+            "(C07) are outside the address model.",
     "technique": "Coq proof (registry/parent/children invariant over every run) on a message-step kernel model + lockstep differential replay "
-                 "of the real actor system inside Coq",
+                 "of the real actor system inside Coq; Coq proof (invariant over every operation sequence) on a virtual-time model of the "
+                 "set of temporary addresses + differential runs of the real actor system on synctest virtual time with the registry "
+                 "enumerated after every operation",
 }
+
+_orig_go_build = vlib.go_build
+
+
+def _go_build(ctx, pkg, **kw):
+    # c05addr is a test binary: testing/synctest needs *testing.T and go1.26.8
+    if pkg == "c05addr":
+        kw["test"], kw["go"] = True, "go1.26.8"
+    return _orig_go_build(ctx, pkg, **kw)
+
+
+def addr_sub():
+    # addresses of asks still pending when Shutdown returns are reported once that finding is listed as open in known_findings.json
+    # (then every run reports it as KNOWN-FINDING with a reproduction count)
+    ids = {f.get("id") for f in vlib.known_findings("C05")}
+    return {"pkg": "c05addr", "sub": "addr", "go": "go1.26.8", "kinds": ["C05:addr:"],
+            "args": ["-pendingshutdown"] if FINDING_PENDING in ids else []}
 
 
 def check(ctx):
-    return K.check(ctx, "C05", ["C05:", "kernel:"], "DESIGN.md §6 C05")
+    vlib.go_build = _go_build
+    return K.check(ctx, "C05", ["C05:", "kernel:"], "DESIGN.md §6 C05; docs/C05-ADDR-NOTES.md",
+                   extra_subs=[addr_sub()], extra_trusted=TRUSTED_ADDR)
 
 
 def replay(ctx, path):
-    return K.replay(ctx, path)
+    vlib.go_build = _go_build
+    return K.replay(ctx, path, extra_pkgs={"addr": "c05addr"})
